@@ -165,6 +165,9 @@ def generic_rules(body):
         op = h.end() - 1
         cl = match_brace(m, op)
         edits.append((h.start(), cl + 1, 'bump_alloc_layout(&%s, %s)' % (re.sub(r'\s+', '', h.group(1)), body[op + 1:cl].strip()), 'R8'))
+    # D10  closure parameter `_` => `_unused` (Verus accepts only variable patterns there)
+    for h in re.finditer(r'\|\s*_\s*\|', m):
+        edits.append((h.start(), h.end(), '|_unused|', 'D10'))
     # R9  &V[..] => V.as_slice()      (full-range slice of a Vec; vstd specifies as_slice)
     for h in re.finditer(r'&\s*([A-Za-z_]\w*)\s*\[\s*\.\.\s*\]', m):
         edits.append((h.start(), h.end(), '%s.as_slice()' % h.group(1), 'R9'))
@@ -208,6 +211,7 @@ class Contract:
         self.src_file = self.fn_spec = None
         self.wrap = None
         self.allow_panic = False
+        self.assoc = {}
         self.head = []          # (lineno, text): attributes + signature + clauses
         self.directives = []    # dict(kind, arg, lineno, text[])
         cur = None
@@ -220,6 +224,11 @@ class Contract:
                 continue
             elif s.startswith('//@allow-panic'):
                 self.allow_panic = True
+            elif s.startswith('//@assoc'):
+                # rule D9: `//@assoc Self::Item = T`: a trait-impl method verified as an inherent method spells the
+                # associated type out
+                k_, v_ = s[len('//@assoc'):].split('=', 1)
+                self.assoc[k_.strip()] = v_.strip()
             elif s.startswith('//@wrap'):
                 self.wrap = s[len('//@wrap'):].strip()
             elif s.startswith('//@body'):
@@ -292,7 +301,10 @@ def build_fn(key, mode, log):
     S = source(c.src_file)
     loc = S.find_fn(c.fn_spec)
     real_sig = S.text[loc['fn_idx']:loc['body_open']]
-    a = tokens(norm_real_sig(real_sig))
+    rs_ = norm_real_sig(real_sig)
+    for k_, v_ in c.assoc.items():
+        rs_ = rs_.replace(k_, v_)
+    a = tokens(rs_)
     b = tokens(norm_contract_sig(c.signature_text()))
     if a != b:
         raise LostAnchor('signature of %s %s changed:\n  real:     %s\n  contract: %s'
@@ -501,6 +513,32 @@ def build_fn(key, mode, log):
                 inserts.append((e, ghost_text(d), tag, d))
             else:
                 inserts.append((masked.rfind('\n', 0, e) + 1, ghost_text(d), tag, d))
+        elif k in ('before-stmt', 'after-stmt'):
+            # the statement that CONTAINS the given text (robust against how the statement is otherwise written)
+            m_ = re.match(r'`(.*?)`\s*(#(\d+))?$', d['arg'], re.S)
+            if not m_:
+                raise ValueError('%s:%d: bad anchor' % (c.rel, d['lineno']))
+            hits = list(flex_tok(m_.group(1)).finditer(body))
+            which = int(m_.group(3)) if m_.group(3) else None
+            if (which is None and len(hits) != 1) or (which is not None and which > len(hits)):
+                raise LostAnchor('%s:%d: text `%s` found %d times in %s' % (c.rel, d['lineno'], m_.group(1), len(hits), where))
+            h = hits[(which or 1) - 1]
+            if k == 'before-stmt':
+                st = max(masked.rfind(';', 0, h.start()), masked.rfind('{', 0, h.start()), masked.rfind('}', 0, h.start())) + 1
+                inserts.append((st, ghost_text(d), tag, d))
+            else:
+                p_ = h.end()
+                depth_ = 0
+                while p_ < len(masked):
+                    ch = masked[p_]
+                    if ch in '([{':
+                        depth_ += 1
+                    elif ch in ')]}':
+                        depth_ -= 1
+                    elif ch == ';' and depth_ <= 0:
+                        break
+                    p_ += 1
+                inserts.append((p_ + 1, ghost_text(d), tag, d))
         elif k == 'before-break':
             n = int(d['arg'].split()[0]) if d['arg'].strip() else 1
             brs = list(re.finditer(r'\bbreak\b', masked))
